@@ -24,8 +24,24 @@ DISPLAY_REL = "<debian_control::lossy::relations::Relation as core::fmt::Display
 DISPLAY_RELS = "<debian_control::lossy::relations::Relations as core::fmt::Display>::fmt"
 
 
+SYM = True      # component strings are atoms (arbitrary IDENT-class words); '!' and ':' stay literal
+
+
 def S(x):
-    return symstr.lit(x)
+    if not SYM:
+        return symstr.lit(x)
+    neg = x.startswith("!")
+    ps = [("lit", "!")] if neg else []
+    for i, part in enumerate((x[1:] if neg else x).split(":")):
+        if i:
+            ps.append(("lit", ":"))
+        ps.append(("atom", part, "word"))
+    return symstr.mk(ps)
+
+
+def M(r):
+    """the model as it reads back when component strings are atoms"""
+    return c10.symrel(r) if SYM else r
 
 
 def lossy_value(r):
@@ -42,25 +58,44 @@ def lossy_value(r):
 
 
 def lex_text(text, cells):
-    """tokenise concrete text with the extracted relation lexer table: list of (kind, sstr)"""
-    out = []
-    i = 0
-    while i < len(text):
-        ch = text[i]
-        outs = cells.get(ch)
+    """tokenise text with the extracted relation lexer table: list of (kind, sstr).  `text` is a python string or a
+    symbolic string value; atoms of class word stand for arbitrary non-empty IDENT-character strings"""
+    if isinstance(text, str):
+        pieces = [("lit", text)]
+    else:
+        pieces = list(symstr.pieces_of(text) or ())
+    units = []          # ('c', char) | ('a', atom piece)
+    for p in pieces:
+        if p[0] == "lit":
+            units += [("c", ch) for ch in p[1]]
+        elif p[0] == "atom" and p[2] == "word":
+            units.append(("a", p))
+        else:
+            return None
+
+    def kind_of(u):
+        if u[0] == "a":
+            return "IDENT", True
+        outs = cells.get(u[1])
         kinds = {o[1] for o in (outs or ()) if o[0] == "tok"}
         if len(kinds) != 1:
+            return None, False
+        return next(iter(kinds)), any(o[0] == "tok" and o[2] == "many" for o in outs)
+    out = []
+    i = 0
+    while i < len(units):
+        k, run = kind_of(units[i])
+        if k is None:
             return None
-        k = next(iter(kinds))
-        if any(o[0] == "tok" and o[2] == "many" for o in outs):
-            j = i
-            while j < len(text) and {o[1] for o in (cells.get(text[j]) or ()) if o[0] == "tok"} == {k}:
+        j = i + 1
+        if run:
+            while j < len(units) and kind_of(units[j]) == (k, True):
                 j += 1
-            out.append((k, S(text[i:j])))
-            i = j
-        else:
-            out.append((k, S(ch)))
-            i += 1
+        ps = []
+        for u in units[i:j]:
+            ps.append(("lit", u[1]) if u[0] == "c" else u[1])
+        out.append((k, symstr.mk(ps)))
+        i = j
     return out
 
 
@@ -113,7 +148,8 @@ def run(tier):
         if not C.ob("C14/print-decidable", label, len(texts) == 1 and texts[0] is not None, "Display has outcomes %s" % [(ctl, str(v)[:60]) for ctl, v, s in rs], sp):
             continue
         text = texts[0]
-        toks = lex_text(text, cells)
+        r = M(r)
+        toks = lex_text(rs[0][1], cells)
         if not C.ob("C14/print-lexes", label, toks is not None and all(k != "ERROR" for k, t in toks), "printed text %r contains characters outside the relation token classes" % text, sp):
             continue
         # --- lossy reader on the printed text
@@ -183,13 +219,13 @@ def check_entries_and_fields(F, C, ms, cells, lit_text, tier):
             alts.append(picks[i + 2])
         n += 1
         label = " | ".join(db.text_of_tokens(relspec.rel_tokens(r, "canonical")) for r in alts)
+        want_text = " | ".join(db.text_of_tokens(relspec.rel_tokens(r, "canonical", SYM)) for r in alts)
         tm = c10.AccMod(F, rp.KIND)
         I = hirai.Interp(F, tm, max_depth=18)
         I.max_recursion = 8
         s0 = hirai.State(depth=0)
         vec = ("abs", "svec", tuple(lossy_value(r) for r in alts))
         # expected text: the alternatives' own Display joined by " | "
-        want_text = label
         res = I.inline(F.fn(ENTRY_FROM_LOSSY), [vec], s0)
         sp = F.fn(ENTRY_FROM_LOSSY)["sp"]
         if not C.ob("C14/entry-convert-decidable", label, len(res) == 1 and res[0][0] == OK, "From<Vec<lossy::Relation>> for Entry has outcomes %s" % [(ctl, str(v)[:100]) for ctl, v, s in res], sp):
@@ -212,7 +248,7 @@ def check_entries_and_fields(F, C, ms, cells, lit_text, tier):
                 outs.append([c10.lossy_model(I, d[0][1], x) for x in d[0][0]] if len(d) == 1 and d[0][0] is not None else str(v)[:80])
             else:
                 outs.append("%s %s" % (ctl, str(v)[:80]))
-        C.ob("C14/entry-back", label, outs == [alts], "Vec<lossy> -> Entry -> Vec<lossy> gives %s" % (outs,), F.fn(ENTRY_TO_LOSSY)["sp"])
+        C.ob("C14/entry-back", label, outs == [[M(r) for r in alts]], "Vec<lossy> -> Entry -> Vec<lossy> gives %s" % (outs,), F.fn(ENTRY_TO_LOSSY)["sp"])
     # lossy Relations Display: entries joined by ", ", alternatives by " | "; both field readers on the printed text
     for i in range(0, len(picks) - 3, 3):
         entries = [[picks[i]], [picks[i + 1], picks[i + 2]]] if i % 2 == 0 else [[picks[i], picks[i + 1]], [picks[i + 2]], [picks[i + 3]]]
@@ -222,16 +258,16 @@ def check_entries_and_fields(F, C, ms, cells, lit_text, tier):
         I = hirai.Interp(F, tm, max_depth=18)
         rs = tm.render(I, hirai.State(depth=0), val, {})
         texts = [symstr.show(v) if ctl == OK and v[0] in ("sstr", "str") else None for ctl, v, s in rs]
-        want = ", ".join(" | ".join(db.text_of_tokens(relspec.rel_tokens(r, "canonical")) for r in e) for e in entries)
+        want = ", ".join(" | ".join(db.text_of_tokens(relspec.rel_tokens(r, "canonical", SYM)) for r in e) for e in entries)
         sp = F.fn(DISPLAY_RELS)["sp"]
         if not C.ob("C14/field-print", want, texts == [want], "lossy Relations prints %s" % (texts,), sp):
             continue
-        toks = lex_text(texts[0], cells)
+        toks = lex_text(rs[0][1], cells)
         try:
             ref_entries, _ = relspec.read_field(toks)
         except relspec.NotWellFormed as e:
             ref_entries = str(e)
-        C.ob("C14/field-wellformed", want, ref_entries == entries, "the printed field reads (reference grammar) as %s" % (ref_entries,), sp)
+        C.ob("C14/field-wellformed", want, ref_entries == [[M(r) for r in e] for e in entries], "the printed field reads (reference grammar) as %s" % (ref_entries,), sp)
         rels, errs, st, mod = db.parse_relations(F, toks)
         C.ob("C14/field-lossless-accepts", want, rels is not None and errs == ("abs", "strvec", 0), "the lossless reader rejects the printed field %r" % texts[0], F.fn(rp.PARSE_FN)["sp"])
     return n
